@@ -2256,6 +2256,58 @@ class SequenceAndSetBase(base.ConstructedAsn1Type):
                 # duck-typing list
                 raise IndexError(sys.exc_info()[1])
 
+    def _getValueComponents(self, size):
+        # Components as seen by value comparison: a component that holds no
+        # value (never assigned, or a schema placeholder left behind by a
+        # read) counts as absent; an absent DEFAULT component counts as its
+        # default value.
+        components = []
+
+        for idx in range(size):
+            try:
+                componentValue = self._componentValues[idx]
+
+            except IndexError:
+                componentValue = noValue
+
+            if componentValue is noValue or not componentValue.isValue:
+                componentValue = None
+
+                if idx < self._componentTypeLen:
+                    namedType = self.componentType[idx]
+                    if namedType.isDefaulted:
+                        componentValue = namedType.asn1Object
+
+            components.append(componentValue)
+
+        return components
+
+    def _isComparableRecord(self, other):
+        return (isinstance(other, SequenceAndSetBase) and
+                not isinstance(self, Choice) and
+                not isinstance(other, Choice) and
+                self._componentValues is not noValue and
+                other._componentValues is not noValue)
+
+    def __eq__(self, other):
+        if self is other:
+            return True
+
+        if self._isComparableRecord(other):
+            size = max(len(self._componentValues), len(other._componentValues))
+            return self._getValueComponents(size) == other._getValueComponents(size)
+
+        return base.ConstructedAsn1Type.__eq__(self, other)
+
+    def __ne__(self, other):
+        if self._isComparableRecord(other):
+            size = max(len(self._componentValues), len(other._componentValues))
+            return self._getValueComponents(size) != other._getValueComponents(size)
+
+        return base.ConstructedAsn1Type.__ne__(self, other)
+
+    __hash__ = None
+
     def __contains__(self, key):
         if self._componentTypeLen:
             return key in self.componentType
